@@ -119,7 +119,34 @@ class RouterHarness(h_lib.LibHarness):
         # the server is idle: every worker has finished; a request issued now clones the router's current Arc
         state = {k: self.content_of(router, db, k) for k in expected}
         ctx.law('C11.idle-state-is-the-last-text-sent', state == expected, {'input': ctx.input_desc, 'state': state, 'expected': expected})
+        if not ctx.violations and self.tv_pick(ctx.trace):
+            # translator validation: the same session, with the model's choice of running workers and versions, through the real Router::run
+            v = {'model': ctx.model(), 'info': {}}
+            self.finish_violation(ctx, v)
+            steps = self.native_steps(v['input_tree'])
+            marks = {'a': 'T1', 'b': 'T3'}
+            for st in steps:
+                if st.get('note') in ('didChange', 'didSave+text'):
+                    marks[st['key']] = st['text'].split()[0]
+            ctx.tv = {'script': [{'op': 'router_session', 'steps': steps}], 'expect': None, 'post': ['session', {k: (marks.get(k) if state.get(k) is not None else None) for k in state}]}
         return last
+
+    tv_every = 23
+    tv_phase = 0
+
+    def tv_compare(self, tv, native_out):
+        exp = tv['post'][1]
+        out = native_out[-1] if native_out else None
+        if not (isinstance(out, dict) and 'texts' in out):
+            tv['diff'] = out
+            return False
+        got = out['texts']
+        for k, mark in exp.items():
+            if mark is None:
+                if got.get(k): tv['diff'] = {'note': k, 'executor': None, 'native': got.get(k)}; return False
+            elif mark not in (got.get(k) or ''):
+                tv['diff'] = {'note': k, 'executor': mark, 'native': got.get(k)}; return False
+        return True
 
     def content_of(self, router, db, key):
         cur = router.get('server')          # whatever Arc the router holds now is what later requests clone
@@ -180,7 +207,23 @@ class RouterHarness(h_lib.LibHarness):
 
     def replay(self, v, driver):
         d = v['input_tree']
-        steps, step_no = [], 0
+        steps = self.native_steps(d)
+        script = [{'op': 'router_session', 'steps': steps}]
+        res = driver.run(script, timeout=90)
+        v['replay_script'], v['replay_result'] = script, res
+        last = res[-1]
+        v['replay_verdict'] = 'native router: %s' % str(last)[:300]
+        if not (isinstance(last, dict) and 'texts' in last):
+            return False
+        exp = {'a': 'T1', 'b': 'T3'}
+        for st in steps:
+            if st.get('note') in ('didChange', 'didSave+text'):
+                exp[st['key']] = st['text'].split()[0]
+        got = last['texts']
+        return any((exp.get(k) or '') not in (got.get(k) or '') for k in exp)
+
+    def native_steps(self, d):
+        steps = []
         msgs = d['messages']
         # a worker that the model lets finish before the next notification is a request whose worker ends at once;
         # one that is still running is a request whose response the client has not read yet
@@ -197,16 +240,4 @@ class RouterHarness(h_lib.LibHarness):
                 ver = d['versions'].get('version_of_edit%d' % m['step'], 1)
                 if ver >= 2 ** 31: ver -= 2 ** 32
                 steps.append({'note': m['note'], 'key': m['key'], 'text': 'EDIT%d one\n\nEDIT%d two\n' % (m['step'], m['step']), 'version': ver})
-        script = [{'op': 'router_session', 'steps': steps}]
-        res = driver.run(script, timeout=90)
-        v['replay_script'], v['replay_result'] = script, res
-        last = res[-1]
-        v['replay_verdict'] = 'native router: %s' % str(last)[:300]
-        if not (isinstance(last, dict) and 'texts' in last):
-            return False
-        exp = {'a': 'T1', 'b': 'T3'}
-        for st in steps:
-            if st.get('note') in ('didChange', 'didSave+text'):
-                exp[st['key']] = st['text'].split()[0]
-        got = last['texts']
-        return any((exp.get(k) or '') not in (got.get(k) or '') for k in exp)
+        return steps
